@@ -51,7 +51,7 @@ def _check_tree(ctx, kind, tree, n, adj, root, bfs=True):
     try:
         parent = list(tree.parent)
         children = [list(c) for c in tree.children]
-        tedges = [tuple(int(x) for x in e) for e in tree.edges]
+        tedges = [tuple(sorted(int(x) for x in e)) for e in tree.edges]
     except Exception as e:
         ctx.violation("tree", op, "malformed_tables", "parent/children/edges tables are malformed: %s" % type(e).__name__)
         return None
